@@ -66,7 +66,8 @@ class Volume
 
      std::optional<SectorBuffer> read_block(unsigned long lba) override
        {
-	 if (lba > len_)
+	 // Valid block addresses within the volume are 0 .. len_-1.
+	 if (lba >= len_)
 	   return std::nullopt;
 	 return underlying_.read_block(origin_ + lba);
        }
